@@ -439,6 +439,10 @@ Proof.
   destruct (resolve runner groups bench) as [sc ss th [cb cc cy ci] mn mx se ig]. reflexivity.
 Qed.
 
+Lemma first_some_four {A : Type} (a b c d : option A) :
+  first_some [a; b; c; d] = opt_or a (opt_or (opt_or b c) d).
+Proof. destruct a; destruct b; destruct c; destruct d; reflexivity. Qed.
+
 Lemma spec_runner_correct (before flags env after : options) :
   spec_runner before flags env after = runner_level before flags env after.
 Proof.
@@ -448,8 +452,6 @@ Proof.
   destruct (norm_threads env) as [sc3 ss3 th3 [cb3 cc3 cy3 ci3] mn3 mx3 se3 ig3].
   destruct (norm_threads after) as [sc4 ss4 th4 [cb4 cc4 cy4 ci4] mn4 mx4 se4 ig4].
   cbn [overwrite cs_overwrite o_sample_count o_sample_size o_threads o_counters o_min_time o_max_time
-       o_skip_ext_time o_ignore cs_bytes cs_chars cs_cycles cs_items map first_some].
-  f_equal; try (f_equal);
-    repeat match goal with |- context [match ?x with Some _ => _ | None => _ end] => destruct x; cbn [opt_or first_some] end;
-    reflexivity.
+       o_skip_ext_time o_ignore cs_bytes cs_chars cs_cycles cs_items map].
+  rewrite !first_some_four. reflexivity.
 Qed.
